@@ -55,6 +55,7 @@ type Config struct {
 	// grace after the root task returned; 0 = use the global budgets only
 	GraceYields int64
 	GraceTime   int64
+	GraceDecs   int64
 	KeepLog     bool // keep a textual event log (replay / debugging)
 }
 
@@ -722,6 +723,10 @@ func (s *sched) schedule() {
 		if s.res.RootDone {
 			if s.cfg.GraceYields > 0 && s.passed-s.res.Stats.RootDoneAtY > s.cfg.GraceYields {
 				s.end("grace-yields")
+				return
+			}
+			if s.cfg.GraceDecs > 0 && s.res.Stats.Decisions-s.res.Stats.RootDoneAtD > s.cfg.GraceDecs {
+				s.end("grace-decisions")
 				return
 			}
 			if s.cfg.GraceTime > 0 && simNow-s.res.Stats.RootDoneAtT > s.cfg.GraceTime {
